@@ -1,10 +1,59 @@
-(* Properties_C08.v — obligations of property C08.  Contains only theorem statements closed by
-   `exact <lemma>` and Print Assumptions. *)
-Require Import ObsRun.
+(* Properties_C08.v — obligations of property C08 (RadioText A/B protocol). *)
+Require Import ObsRun Lemmas_TextProps.
 Local Open Scope Z_scope.
 
-(* non-vacuity: the observer of C08 is evaluated (and holds) along a run of the model that
-   touches every group kind *)
+(* the register "flag last seen" of a reachable state is the history function h_last_rt: the A/B
+   flag of the most recent type-2 group with an error-free block B since the last clear / init,
+   -1 when there is none *)
+Theorem C08_last_flag_is_history : forall conv lut h s, reach conv lut h s -> last_rt s = h_last_rt h.
+Proof. exact reach_last_rt. Qed.
+Print Assumptions C08_last_flag_is_history.
+
+(* For every reachable state and every type-2 group with flag f (last = flag last seen):
+   - PS and PTYN are untouched and the buffer of the OTHER flag is exactly as it was;
+   - the flag last seen becomes f iff block B is error-free (it changes only then);
+   - eb <> 0, last <> -1, last <> f  (possible bit-flip): the buffer of f is unchanged, i.e. the group
+     is ignored as far as RadioText goes;
+   - otherwise the buffer of f is first emptied iff eb = 0, last <> -1, last <> f and it held something
+     (so the very first flag after a reset empties nothing), and then only the addressed cells are
+     written (2A: 4s..4s+3 from C and D; 2B: 2s, 2s+1 from D; s = B mod 16). *)
+Theorem C08_protocol : forall conv lut h g s, reach conv lut h s -> wf_group g -> b_group (gb g) = 2 ->
+  let s' := fst (process conv lut g s) in
+  let f := b_rtflag (gb g) in
+  let last := h_last_rt h in
+  let switch := (eb g =? 0) && negb (f =? last) in
+  let ignored := negb (eb g =? 0) && negb (f =? last) && negb (last =? -1) in
+  let base := if switch && negb (last =? -1) && string_available (rt_of f s)
+              then cells (string_clear (rt_of f s)) else cells (rt_of f s) in
+  let w := write2 conv (corr s RT INFO) (corr s RT DATA) (prog s RT) (eb g) in
+  ps s' = ps s /\ ptyn s' = ptyn s
+  /\ rt_of (1 - f) s' = rt_of (1 - f) s
+  /\ last_rt s' = (if switch then f else last)
+  /\ cells (rt_of f s') =
+     if ignored then cells (rt_of f s)
+     else if b_ver (gb g) =? 0
+          then w (ed g) (Z.to_nat (4 * (gb g mod 16) + 2)) (gd g) (w (ec g) (Z.to_nat (4 * (gb g mod 16))) (gc g) base)
+          else w (ed g) (Z.to_nat (2 * (gb g mod 16))) (gd g) base.
+Proof.
+  intros conv lut h g s Hr W G. cbv zeta.
+  rewrite <- (reach_last_rt conv lut h s Hr).
+  exact (rt_step conv lut g s (reach_inv conv lut h s Hr) W G).
+Qed.
+Print Assumptions C08_protocol.
+
+(* no other group touches the two RT buffers or the flag last seen *)
+Theorem C08_only_type2 : forall conv lut g s, Inv conv s -> wf_group g -> b_group (gb g) <> 2 ->
+  let s' := fst (process conv lut g s) in rt0 s' = rt0 s /\ rt1 s' = rt1 s /\ last_rt s' = last_rt s.
+Proof.
+  intros conv lut g s I W N2. cbv zeta. pose proof W as [_ [Hb _]].
+  destruct (group_cases conv lut (gb g) Hb) as [G|[G|[[G V]|[N0 [_ N10]]]]]; [|contradiction| |].
+  - destruct (ps_step conv lut g s I W G) as [_ [A [B [_ C]]]]. auto.
+  - destruct (ptyn_step conv lut g s I W G V) as [_ [_ [A [B C]]]]. auto.
+  - destruct (no_text_step conv lut g s I W N0 N2 N10) as [_ [A [B [_ C]]]]. auto.
+Qed.
+Print Assumptions C08_only_type2.
+
+(* PARTIAL: the RT callback ("reports that flag") is covered by the observer obs_C08 / obs_C04,
+   which are evaluated (model: Example below; library: the check) but not proved for all runs. *)
 Example C08_scenario : check_run_u (observer_u 8) scenario = true.
 Proof. vm_compute. reflexivity. Qed.
-Print Assumptions C08_scenario.
